@@ -16,6 +16,7 @@ import ClairModel.Proofs.Version
 import ClairModel.Proofs.Gem
 import ClairModel.Proofs.Maven
 import ClairModel.Proofs.RhcTag
+import ClairModel.Proofs.RhcTagShape
 import ClairModel.Proofs.Pep440
 
 -- every variable of a property statement is bound explicitly: a misspelt name is an error, not a new variable
@@ -310,6 +311,36 @@ example : (do
     let d ← RhcTag.parse "v4.7.0-202112140553.p0.g091bb99.assembly.stream".toList
     pure (RhcTag.plain false a && RhcTag.plain false b && RhcTag.plain true c && RhcTag.plain true d)) = some true := by
   decide
+
+/-- The fragment can be recognised on the text alone (`RhcTag.shapeNums`): a
+    tag `[v]digits`, `[v]digits.` or `[v]digits.digits` followed by the end of
+    the text, a `-` (the release; it may contain further dashes) or — after the
+    second number — a `.`, without `:` and with both numbers below 2^31, is
+    parsed by `rhctag.Parse` to exactly these two numbers (Minor 0 when
+    absent), and the parsed tag is `plain`. -/
+theorem rhctag_shape_plain (s : List Char) (v : Bool) (M m : Nat) (h : RhcTag.shapeNums s = some (v, M, m)) :
+    RhcTag.parse s = some { original := s, major := M, minor := m } ∧
+    RhcTag.plain v { original := s, major := M, minor := m } = true :=
+  RhcTag.shape_parse_plain h
+
+/-- Hence, on texts: two well-shaped tags with the same prefix both parse, and
+    `a ≤ b` by `Compare` gives `Version(a) ≤ Version(b)` (either bound); the
+    projections are (Major, Minor, 0 | MaxInt32) of the numbers read off the text. -/
+theorem rhctag_projection_monotone_shape (s₁ s₂ : List Char) (v : Bool) (M₁ m₁ M₂ m₂ : Nat) (min : Bool)
+    (h₁ : RhcTag.shapeNums s₁ = some (v, M₁, m₁)) (h₂ : RhcTag.shapeNums s₂ = some (v, M₂, m₂)) :
+    ∃ a b, RhcTag.parse s₁ = some a ∧ RhcTag.parse s₂ = some b ∧
+      a.major = M₁ ∧ a.minor = m₁ ∧ b.major = M₂ ∧ b.minor = m₂ ∧
+      (RhcTag.cmp a b ≠ .gt → Version.cmp (RhcTag.project a min) (RhcTag.project b min) ≠ .gt) := by
+  obtain ⟨p₁, q₁⟩ := RhcTag.shape_parse_plain h₁
+  obtain ⟨p₂, q₂⟩ := RhcTag.shape_parse_plain h₂
+  exact ⟨_, _, p₁, p₂, rfl, rfl, rfl, rfl, RhcTag.proj_mono v _ _ min q₁ q₂⟩
+
+/-- Tags with several dashes ("source" container tags) are well-shaped: the
+    revision is cut at the FIRST dash. -/
+example : RhcTag.shapeNums "8.6-7-source".toList = some (false, 8, 6) ∧
+    RhcTag.shapeNums "v4.7.0-202112140553.p0.g091bb99.assembly.stream-source".toList = some (true, 4, 7) ∧
+    RhcTag.shapeNums "4.7-140.49a6fcf.release_4.7".toList = some (false, 4, 7) ∧
+    RhcTag.shapeNums "4.5x".toList = none := by decide
 
 /-- The projection `Version(min)` can invert `Compare` (finding
     rhctag-projection-inverts): "v4.9.0-1" < "4.8.0-1" by the rpm comparison
